@@ -89,6 +89,18 @@ NEEDS = {
  'C12-F': ('IntRange converts through a float', 'integers beyond 2**53', 'caught at once (end-to-end pbig)'),
  'C19-E': ('identity-fits test on the raw byte length', 'equipment id with characters needing a JSON escape, within 5 bytes of the limit', 'caught at once'),
  'C19-F': ('receive buffer enlarged to 64k', 'a datagram nested deeper than the recursion limit (longer than the old buffer)', 'strengthened: datagrams longer than the receive buffer (deep nesting) added'),
+ 'C04-G': ('automatic limit check installed only if no check method is inherited (hasattr)', 'check hook in a base class, limit parameters added in a subclass', 'caught at once (inherited-limits and generated classes)'),
+ 'C04-H': ('command without argument tests the payload for truth instead of None', 'do with an empty non-null payload (0, false, "", [], {}) on a command without argument', 'caught at once'),
+ 'C06-G': ('interface class and features computed in one loop over the MRO that stops at the interface class', 'a feature mixin listed after the interface class', 'strengthened: feature-last / feature-both class variants added'),
+ 'C06-H': ('write method looked up instead of the readonly flag', 'a configuration locking a writable parameter, or a readonly parameter with an internal write method', 'caught at once (shipped configuration)'),
+ 'C10-G': ('start-up writes only for modules with enablePoll', 'a class with enablePoll = False and a configured value for a parameter with a write method', 'strengthened: third module without polling added'),
+ 'C10-H': ('value properties popped from the configuration dict while applying it', 'the same loaded configuration applied a second time (restart)', 'strengthened: restart with the same configuration object added'),
+ 'C13-G': ('PollInfo remembers its own normal interval', 'fast polling on, pollinterval changed meanwhile, fast polling off', 'strengthened: change-interval-while-fast scenario added'),
+ 'C13-H': ('raising method appended only if not already last', 'a SECoP error raised by doPoll itself, not inside a read method', 'strengthened: dopoll-raises-directly scenario added'),
+ 'C15-G': ('initialised flag set only after a successful initialisation', 'a module failing in earlyInit/initModule that is requested again', 'strengthened: exactly-once also checked in rejected (acyclic) configurations'),
+ 'C15-H': ('shutdown order by a breadth-first walk', 'a module reached through two attachment paths of different length', 'strengthened: two attachments per module (out-degree 2 graphs) added'),
+ 'C18-G': ('generated float write returns the value of the requested index', 'a driver whose index write returns another index than requested', 'caught at once'),
+ 'C18-H': ('insideRW guard as a context manager without try/finally', 'a struct write failing inside a member, then a single member write', 'caught at once'),
 }
 
 
